@@ -14,13 +14,13 @@ def _c01_nontrivial(cf):
 
 
 CONFIG = dict(
-    correspondence="GoImap.Wire (Model/Wire.lean) vs the real imapwire.Encoder (String, Mailbox, Flag, MailboxAttr, Number, Number64, ModSeq, NumSet, List/BeginList) and the real imapwire.Decoder of the peer side (ExpectAString, ExpectString, ExpectMailbox, internal.ExpectFlag/ExpectMailboxAttr and their list readers, ExpectNumber/Number64/ModSeq, ExpectNumSet/ExpectUIDSet, List, DiscardValue): bytes written, offsets at which the encoder waited for a continuation request, encoder refusal, decoder result, returned error class, dec.Err() class, unread byte count, literal-hook calls; plus decoder-only cases over mutated encoder output",
-    rule="byte strings (weighted alphabet: NUL CR LF quote backslash DEL 8-bit invalid UTF-8 braces) of every length 0..20 and 4095/4096/4097/8192 under all 16 side x mode configurations with both string readers and 9 kinds of following bytes; valid-UTF-8 mailbox names incl. INBOX case variants, '&', astral runes, names around the 4096 threshold; flags and mailbox attributes from the canonical tables in every case mix, random atoms and a table of malformed ones, singly and as lists; numbers at 0, 1, 2^31, 2^32-1, 2^63-1, -1, -2^63 and random; canonical and raw number sets, empty sets, SEARCHRES; value trees of depth <= 6 and chains of depth 1,2,998..1001; non-trivial = the encoder accepted the value and wrote more than its CRLF; distinct = different case line",
+    correspondence="GoImap.Wire (Model/Wire.lean) vs the real imapwire.Encoder (String, Mailbox, Flag, MailboxAttr, Number, Number64, ModSeq, NumSet, List/BeginList) and the real imapwire.Decoder of the peer side (ExpectAString, ExpectString, ExpectMailbox, internal.ExpectFlag/ExpectMailboxAttr and their list readers, ExpectNumber/Number64/ModSeq, ExpectNumSet/ExpectUIDSet, List, DiscardValue): bytes written, offsets at which the encoder waited for a continuation request, encoder refusal, decoder result, returned error class, dec.Err() class, unread byte count, literal-hook calls; plus decoder-only cases over mutated encoder output and over hand-framed mailbox names (atom/quoted/literal; control characters, DEL, 8-bit, '&' forms) judged against Utf7Spec.specDecode",
+    rule="byte strings (weighted alphabet: NUL CR LF quote backslash DEL 8-bit invalid UTF-8 braces) of every length 0..20 and 4095/4096/4097/8192 under all 16 side x mode configurations with both string readers and 9 kinds of following bytes; valid-UTF-8 mailbox names incl. INBOX case variants, '&', astral runes, names around the 4096 threshold; flags and mailbox attributes from the canonical tables in every case mix, random atoms, a table of malformed ones, 8-bit keywords and well-known names with a Unicode look-alike/fold-alike letter, singly and as lists; numbers at 0, 1, 2^31, 2^32-1, 2^63-1, -1, -2^63 and random; canonical and raw number sets, empty sets, SEARCHRES; value trees of depth <= 6 and chains of depth 1,2,998..1001; non-trivial = the encoder accepted the value and wrote more than its CRLF; distinct = different case line",
     nontrivial=_c01_nontrivial,
     trusted=["bufio.Reader/Writer, strconv, strings.EqualFold/ToLower on ASCII, unicode.IsControl and the utf8 validity test are below the modelled interface (tied on every run)",
              "the generic value reader used for nested lists is harness code assembled from Decoder.String / Decoder.List / Decoder.ExpectNumber64 in the order of Decoder.DiscardValue (which is observed as well)"],
     assumptions=["mailbox names are valid UTF-8 (others are counted as skipped)",
-                 "flags and attributes are 7-bit (bytes >= 0x80 go through Go's Unicode strings.ToLower; counted as skipped)",
+                 "refused <=> not representable is judged for 7-bit flags and attributes only (the library also lets bytes >= 0xA0 through; such flags must still round-trip unchanged)",
                  "a continuation request is available and granted (refusal of a synchronising literal is C18's subject)",
                  "number sets handed to the encoder are in canonical form (raw struct literals outside it are compared with the model but not judged)"],
     leanchecker=True,
